@@ -54,6 +54,7 @@ func runC03(c *Ctx) {
 	ruleBuffers(c, a, "NOALIAS")
 	ruleReplyAddr(c, a)
 	ruleSearch(c, "SEARCH", 2)
+	ruleSnapshot(c) // "some key of the list, whatever the list order": the snapshot searched holds every key
 }
 
 func runC04(c *Ctx) {
